@@ -882,3 +882,202 @@ def c04_mixtures(tier, seed):
     return {'name': 'mixture-additivity', 'evaluations': n, 'distinct_nontrivial': distinct, 'violations': viol, 'samples': samples,
             'bound': 'ordered pairs (incl. self-pairs) of generated molecules x %d schemes' % len(libs),
             'rule': 'a case is (scheme, A, B); non-trivial = both components decomposable'}
+
+
+# ---------------------------------------------------------------------------------------------- C16 / C17
+C16_RULES = [
+    # (name, reactant pattern, edits as (kind, labels...), text of the edits)
+    ('CH-scission', 'C labeled c1 H labeled h1 single bond to c1', [('break', 'c1', 'h1'), ('rad+', 'c1'), ('rad+', 'h1')]),
+    ('CC-scission', 'C labeled c1 C labeled c2 single bond to c1', [('break', 'c1', 'c2'), ('rad+', 'c1'), ('rad+', 'c2')]),
+    ('OH-scission', 'O labeled o1 H labeled h1 single bond to o1', [('rad+', 'o1'), ('break', 'o1', 'h1'), ('rad+', 'h1')]),
+    ('pi-formation', 'C. labeled c1 C. labeled c2 single bond to c1', [('inc', 'c1', 'c2'), ('rad-', 'c1'), ('rad-', 'c2')]),
+    ('pi-formation-set', 'C. labeled c1 C. labeled c2 single bond to c1', [('inc', 'c1', 'c2'), ('radset', 'c1', 0), ('radset', 'c2', 0)]),
+    ('pi-opening', 'C labeled c1 C labeled c2 double bond to c1', [('dec', 'c1', 'c2'), ('rad+', 'c1'), ('rad+', 'c2')]),
+    ('ring-closure', 'C. labeled c1 C labeled c2 single bond to c1 C. labeled c3 single bond to c2', [('form', 'c1', 'c3'), ('rad-', 'c1'), ('rad-', 'c3')]),
+    ('H-shift', 'C. labeled c1 C labeled c2 single bond to c1 H labeled h1 single bond to c2', [('break', 'c2', 'h1'), ('form', 'c1', 'h1'), ('rad-', 'c1'), ('rad+', 'c2')]),
+]
+
+
+def _edit_text(e):
+    k = e[0]
+    return {'break': 'break bond (%s, %s)', 'form': 'form bond (%s, %s)', 'inc': 'increase bond order (%s, %s)', 'dec': 'decrease bond order (%s, %s)',
+            'rad+': 'increase number of radical (%s)', 'rad-': 'decrease number of radical (%s)', 'radset': 'modify number of radical (%s, %s)'}[k] % tuple(e[1:])
+
+
+def c16_rewriter(tier, seed):
+    """unimolecular rules (reactant fragment + balanced or deliberately unbalanced edit sequence) on small molecules: one product set
+    per match, each the reactant with exactly the declared edits (independent rewriter on the matched atoms), elements conserved;
+    unbalanced rules rejected when read"""
+    from rdkit import Chem
+    from pgradd.RINGParser.Reader import Read
+    from pgradd.Error import RINGReaderError
+    rnd = random.Random(seed)
+    smiles = ['C', 'CC', 'CCC', 'C=C', 'CCO', 'CO', 'C=CC', '[CH2][CH2]', '[CH2]C[CH2]', '[CH2]C', '[CH2]CC', 'C[CH][CH2]', 'OO', 'C1CC1']
+    viol, n, distinct, samples = [], 0, 0, []
+    BT = Chem.BondType
+    order = [BT.SINGLE, BT.DOUBLE, BT.TRIPLE, BT.QUADRUPLE]
+
+    def rewrite(mh, labels, match, edits):
+        m = Chem.RWMol(mh)
+        at = dict(zip(labels, match))
+        for e in edits:
+            if e[0] == 'break':
+                m.RemoveBond(at[e[1]], at[e[2]])
+            elif e[0] == 'form':
+                m.AddBond(at[e[1]], at[e[2]], BT.SINGLE)
+            elif e[0] in ('inc', 'dec'):
+                b = m.GetBondBetweenAtoms(at[e[1]], at[e[2]])
+                i = order.index(b.GetBondType()) + (1 if e[0] == 'inc' else -1)
+                m.RemoveBond(at[e[1]], at[e[2]])
+                if i >= 0:
+                    m.AddBond(at[e[1]], at[e[2]], order[i])
+            else:
+                a = m.GetAtomWithIdx(at[e[1]])
+                r = a.GetNumRadicalElectrons()
+                a.SetNumRadicalElectrons(r + 1 if e[0] == 'rad+' else (r - 1 if e[0] == 'rad-' else e[2]))
+        return m
+
+    def canon(mol):
+        frs = Chem.GetMolFrags(mol, asMols=True, sanitizeFrags=False)
+        return sorted(Chem.MolToSmiles(f) for f in frs)
+
+    def formula(mol):
+        from collections import Counter
+        return Counter(a.GetSymbol() for a in mol.GetAtoms())
+    with real.quiet():
+        for name, patt, edits in C16_RULES:
+            toks = patt.split()
+            labels = [toks[i + 1] for i, w in enumerate(toks) if w == 'labeled']
+            text = 'rule %s{ reactant r1{ %s } %s }' % (name.replace('-', '_'), patt, ' '.join(_edit_text(e) for e in edits))
+            try:
+                q = Read(text)
+            except Exception as e:    # noqa
+                viol.append({'id': 'read-' + name, 'input': text, 'observed': '%s: %s' % (type(e).__name__, str(e)[:100]), 'expected': 'a balanced rule is readable'})
+                continue
+            distinct += 1
+            frag = Read('fragment f{ %s }' % patt)
+            for smi in smiles:
+                n += 1
+                mol = Chem.MolFromSmiles(smi)
+                mh = Chem.AddHs(mol)
+                matches = frag.GetQueryMatches(mol)
+                want = sorted(canon(rewrite(mh, labels, m, edits)) for m in matches)
+                try:
+                    prods = q.RunReactants(Chem.MolFromSmiles(smi))
+                    got = sorted(sorted(Chem.MolToSmiles(f) for f in ps) for ps in prods)
+                    cons = all(sum((formula(f) for f in ps), type(formula(mh))()) == formula(mh) for ps in prods)
+                except Exception as e:    # noqa
+                    got, cons = 'raised %s: %s' % (type(e).__name__, str(e)[:80]), True
+                if got != want or not cons:
+                    if len(viol) < 12:
+                        viol.append({'id': '%s-%s' % (name, smi), 'input': {'rule': text, 'molecule': smi}, 'observed': got if cons else ['elements not conserved', got], 'expected': want,
+                                     'script': "from rdkit import Chem\nfrom pgradd.RINGParser.Reader import Read\nq = Read(%r)\nprint([[Chem.MolToSmiles(f) for f in ps] for ps in q.RunReactants(Chem.MolFromSmiles(%r))])\n" % (text, smi)})
+                elif len(samples) < 3 and want:
+                    samples.append({'rule': name, 'molecule': smi, 'product_sets': want[:2]})
+            # deliberately unbalanced variants: drop one radical/charge edit, or duplicate one
+            for i, e in enumerate(edits):
+                if e[0] not in ('rad+', 'rad-', 'radset'):
+                    continue
+                n += 1
+                bad = edits[:i] + edits[i + 1:]
+                t2 = 'rule x{ reactant r1{ %s } %s }' % (patt, ' '.join(_edit_text(x) for x in bad))
+                try:
+                    Read(t2)
+                    viol.append({'id': 'unbalanced-%s-%d' % (name, i), 'input': t2, 'observed': 'accepted', 'expected': 'RINGReaderError (electron balance)'})
+                except RINGReaderError:
+                    pass
+                except Exception as ex:    # noqa
+                    viol.append({'id': 'unbalanced-%s-%d' % (name, i), 'input': t2, 'observed': type(ex).__name__, 'expected': 'RINGReaderError (electron balance)'})
+    return {'name': 'independent-graph-rewriter', 'evaluations': n, 'distinct_nontrivial': distinct, 'violations': viol, 'samples': samples,
+            'bound': '%d unimolecular rules (1-3 atom reactant, break/form/increase/decrease bond, radical +/-/set) and their unbalanced variants x %d molecules' % (len(C16_RULES), len(smiles)),
+            'rule': 'a case is (rule, molecule); rules distinct'}
+
+
+def c17_closure(tier, seed):
+    """seeds x rule sets (reaction SMARTS): every seed present, same species set as an independent breadth-first closure keyed by
+    canonical SMILES, no species twice"""
+    from rdkit import Chem
+    from rdkit.Chem.AllChem import ReactionFromSmarts
+    from rdkit.Chem.rdchem import GetPeriodicTable
+    from pgradd.RDkitWrapper.GenRxnNet import GenerateRxnNet
+    rules = {'CH': '[C:1][H:2]>>[C:1].[H:2]', 'CC': '[C:1][C:2]>>[C:1].[C:2]', 'OH': '[O:1][H:2]>>[O:1].[H:2]', 'CO': '[C:1][O:2]>>[C:1].[O:2]'}
+    rulesets = [['CH'], ['CC'], ['CH', 'CC'], ['OH'], ['CO', 'OH']] if tier == 'quick' else [['CH'], ['CC'], ['CH', 'CC'], ['OH'], ['CO', 'OH'], ['CH', 'CO'], ['CH', 'CC', 'OH', 'CO']]
+    seedsets = [['C'], ['CC'], ['CO'], ['CC', '[CH2]C'], ['C', 'CC'], ['CO', 'C']] if tier == 'quick' else [['C'], ['CC'], ['CO'], ['CC', '[CH2]C'], ['C', 'CC'], ['CO', 'C'], ['CCC'], ['CCO'], ['[CH3]', 'C']]
+    viol, n, distinct, samples = [], 0, 0, []
+    pt = GetPeriodicTable()
+
+    def norm(m):
+        m = Chem.AddHs(m)
+        for a in m.GetAtoms():
+            a.SetNoImplicit(True)
+        return m
+
+    def key(m):
+        m2 = Chem.RemoveHs(m, sanitize=False)
+        try:
+            Chem.SanitizeMol(m2)
+        except Exception:    # noqa
+            pass
+        return Chem.MolToSmiles(m2)
+
+    def closure(seeds, rs):
+        rxns = [ReactionFromSmarts(rules[r]) for r in rs]
+        todo = []
+        for s in seeds:
+            m = Chem.MolFromSmiles(s, sanitize=False)
+            Chem.SanitizeMol(m)
+            todo.append(norm(m))
+        seen = {}
+        for m in todo:
+            seen.setdefault(key(m), m)
+        todo = list(seen.values())
+        while todo:
+            m = todo.pop()
+            for rx in rxns:
+                for ps in rx.RunReactants((m,)):
+                    for p in ps:
+                        for a in p.GetAtoms():
+                            a.SetNoImplicit(True)
+                            a.UpdatePropertyCache(strict=False)
+                        Chem.AssignRadicals(p)
+                        if any(pt.GetDefaultValence(a.GetAtomicNum()) < a.GetTotalValence() for a in p.GetAtoms()):
+                            continue
+                        k = key(p)
+                        if k not in seen:
+                            seen[k] = p
+                            todo.append(p)
+            if len(seen) > 400:
+                break
+        return set(seen)
+    with real.quiet():
+        for seeds in seedsets:
+            for rs in rulesets:
+                n += 1
+                try:
+                    net = GenerateRxnNet(list(seeds), [rules[r] for r in rs])
+                    got = [Chem.MolToSmiles(m) for m in net]
+                except Exception as e:    # noqa
+                    got = 'raised %s: %s' % (type(e).__name__, str(e)[:80])
+                want = closure(seeds, rs)
+                distinct += 1
+                bad = None
+                if isinstance(got, str):
+                    bad = got
+                else:
+                    gk = [Chem.MolToSmiles(Chem.MolFromSmiles(s)) if Chem.MolFromSmiles(s) is not None else s for s in got]
+                    wk = set(Chem.MolToSmiles(Chem.MolFromSmiles(s)) if Chem.MolFromSmiles(s) is not None else s for s in want)
+                    if len(gk) != len(set(gk)):
+                        bad = 'species listed twice: %s' % sorted(s for s in set(gk) if gk.count(s) > 1)
+                    elif set(gk) != wk:
+                        bad = 'species set differs: missing %s, extra %s' % (sorted(wk - set(gk)), sorted(set(gk) - wk))
+                    elif not all((Chem.MolToSmiles(Chem.MolFromSmiles(s)) in set(gk)) for s in seeds):
+                        bad = 'a seed is missing'
+                if bad and len(viol) < 12:
+                    viol.append({'id': '%s-%s' % ('+'.join(seeds), '+'.join(rs)), 'input': {'seeds': seeds, 'rules': [rules[r] for r in rs]}, 'observed': bad if isinstance(got, str) else [bad, got],
+                                 'expected': sorted(want),
+                                 'script': "from rdkit import Chem\nfrom pgradd.RDkitWrapper.GenRxnNet import GenerateRxnNet\nprint([Chem.MolToSmiles(m) for m in GenerateRxnNet(%r, %r)])\n" % (list(seeds), [rules[r] for r in rs])})
+                elif len(samples) < 3:
+                    samples.append({'seeds': seeds, 'rules': rs, 'species': sorted(want)[:8]})
+    return {'name': 'independent-bfs-closure', 'evaluations': n, 'distinct_nontrivial': distinct, 'violations': viol, 'samples': samples,
+            'bound': '%d seed sets of 1..2 small molecules x %d rule sets of bond-scission SMARTS' % (len(seedsets), len(rulesets)),
+            'rule': 'a case is (seed set, rule set); distinct by construction'}
